@@ -2561,6 +2561,14 @@ lyd_merge_sibling_r(struct lyd_node **first_trg, struct lyd_node *parent_trg,
                 /* keep the exact same flags */
                 match_trg->flags = sibling_src->flags;
             }
+        } else if ((match_trg->schema->nodetype == LYS_LEAFLIST) && (match_trg->flags & LYD_DEFAULT) &&
+                !(sibling_src->flags & LYD_DEFAULT)) {
+            /* explicit instance with the value of a default one, it is not a default node anymore */
+            match_trg->flags &= ~LYD_DEFAULT;
+            lyd_np_cont_dflt_del(lyd_parent(match_trg));
+
+            /* keep the exact same flags or mark it new so that validation removes the other default instances */
+            match_trg->flags = (options & LYD_MERGE_WITH_FLAGS) ? sibling_src->flags : (match_trg->flags | LYD_NEW);
         } else if ((match_trg->schema->nodetype & LYS_ANYDATA) && lyd_compare_single(sibling_src, match_trg, 0)) {
             /* update value */
             LY_CHECK_RET(lyd_any_copy_value(match_trg, &((struct lyd_node_any *)sibling_src)->value,
